@@ -68,6 +68,34 @@ def bound_int(x, lo: int, hi: int) -> None:
     assume(lo <= x < hi)
 
 
+def chars_not_in(s, excluded: str) -> None:
+    """Precondition: no character of *s* (len already bounded) is in
+    *excluded*.  Symbolically this is one conjunction over code points added
+    to the path condition without forking."""
+    try:
+        from crosshair.tracers import NoTracing, is_tracing
+    except ImportError:  # pragma: no cover
+        is_tracing = lambda: False  # noqa: E731
+    if not is_tracing():
+        for c in s:
+            assume(c not in excluded)
+        return
+    codes = [ord(x) for x in excluded]
+    n = len(s)
+    for i in range(n):
+        o = ord(s[i])
+        done = False
+        with NoTracing():
+            var = getattr(o, 'var', None) if type(o) is not int else None
+            if var is not None:
+                import z3
+                from crosshair.statespace import context_statespace
+                context_statespace().add(z3.And(*[var != k for k in codes]))
+                done = True
+        if not done:
+            assume(o not in codes)
+
+
 def require(cond, msg: str, *details) -> None:
     """Assert a property clause."""
     if not cond:
